@@ -1,23 +1,36 @@
 /-
-  Spec.Printer — the JMESPath precedence rules written as a printer.
+  Spec.Printer — the JMESPath precedence and projection-scope rules written as a printer.
 
-  `PE` is the abstract syntax of the fragment without projections
-  (identifiers, literals, @, index and sub-expressions, !, the binary
-  operators |, ||, &&, comparators, function calls with expression
-  references, multi-select lists and hashes).  `ppE full e` prints it as
-  tokens, inserting parentheses exactly where the rules require them
-  (`full = false`) or around every operand (`full = true`; the one place where
-  the grammar allows no parentheses, the identifier heading the right-hand side
-  of a dot, is left bare):
+  `PE` is the concrete syntax tree of an expression: identifiers, literals,
+  `@`, index and sub-expressions, `!`, the binary operators `|`, `||`, `&&`
+  and the comparators, function calls with expression references, multi-select
+  lists and hashes, explicit parentheses (`paren`, anywhere an expression may
+  stand), and the five projection forms — `*`, `[*]`, `[]`, slices and filters,
+  each with or without a left operand — together with the right-hand side the
+  projection applies to every element (`Rhs`: nothing, `.e`, or a bracketed `e`).
 
-    * binary operators associate to the left: the left operand needs
-      parentheses when its level is lower, the right one when it is not higher;
-    * levels: pipe 1 < or 2 < and 3 < comparators 5 < dot 40 < not 45 < index 55 < call 60 < atoms.
+  `ppE e` prints `e` as tokens and inserts parentheses exactly where the rules
+  require them:
 
-  `node e` is the AST the expression denotes.  The theorem
-  `Props.C03_printer_round_trip` says the parser inverts the printer.
+    * every construct has a level (`PE.level`): pipe 1 < or 2 < and 3 <
+      comparators 5 < flatten 9 < filter 21 < dot 40 < not 45 < index / `[*]` /
+      slice 55 < call 60 < atoms; a construct can stand where level `k` is
+      being read only if its own level is higher;
+    * binary operators associate to the left: the right operand needs
+      parentheses when its level is not higher than the operator's;
+    * a projection's right-hand side extends as far as it can: it is read at
+      level 20 (9 after `[]`, 21 after a filter), so everything that binds
+      tighter — dots, brackets, filters — belongs to it, and it ends in front
+      of a pipe, a flatten or any looser operator.  `PE.rp e` is the largest
+      power a following token may have without being pulled into `e`; a left
+      operand is parenthesised when that is too small for the operator that
+      follows (`(a[*]).b` versus `a[*].b`).
+
+  `node e` is the AST the expression denotes; parentheses leave no trace in it.
+  `Props.C03_printer_round_trip`: the parser inverts the printer.
 -/
 import Jmes.Ast
+import Jmes.Parser
 namespace Jmes.Spec
 variable {N : Type}
 
@@ -34,6 +47,13 @@ def cmpTok : Cmp → TokType
 def BinOp.tok : BinOp → TokType
   | .pipe => .pipe | .or => .or | .and => .and | .cmp c => cmpTok c
 
+/-- The three parts of a slice: digits as written and the integer they denote. -/
+structure SliceTxt where
+  a : Option (Bytes × Int) := none
+  b : Option (Bytes × Int) := none
+  c : Option (Bytes × Int) := none
+
+mutual
 inductive PE (N : Type) where
   | ident (name : Bytes)                                   -- unquoted identifier
   | quoted (name : Bytes)                                  -- "quoted identifier"
@@ -48,6 +68,23 @@ inductive PE (N : Type) where
   | call (name : Bytes) (args : List (Bool × PE N))        -- name(arg, &arg, …)
   | list (x : PE N) (xs : List (PE N))                     -- [x, …]
   | hash (q : Bool) (k : Bytes) (v : PE N) (kvs : List (Bool × Bytes × PE N))   -- {k: v, …}
+  | paren (e : PE N)                                       -- (e)
+  | star0 (r : Rhs N)                                      -- * rhs
+  | dstar (l : PE N) (r : Rhs N)                           -- l.* rhs
+  | bstar0 (r : Rhs N)                                     -- [*] rhs
+  | bstar (l : PE N) (r : Rhs N)                           -- l[*] rhs
+  | flat0 (r : Rhs N)                                      -- [] rhs
+  | flat (l : PE N) (r : Rhs N)                            -- l[] rhs
+  | slice0 (s : SliceTxt) (r : Rhs N)                      -- [a:b:c] rhs
+  | slice (l : PE N) (s : SliceTxt) (r : Rhs N)            -- l[a:b:c] rhs
+  | filt0 (c : PE N) (r : Rhs N)                           -- [?c] rhs
+  | filt (l : PE N) (c : PE N) (r : Rhs N)                 -- l[?c] rhs
+/-- What a projection applies to each element. -/
+inductive Rhs (N : Type) where
+  | none                                                   -- the element itself
+  | dot (e : PE N)                                         -- .e
+  | br (e : PE N)                                          -- e, which starts with `[` or `[?`
+end
 
 def PE.level : PE N → Nat
   | .idx _ _ _ => 55
@@ -55,7 +92,41 @@ def PE.level : PE N → Nat
   | .not _ => 45
   | .bin op _ _ => op.pow
   | .call _ _ => 60
+  | .dstar _ _ => 40
+  | .bstar _ _ => 55
+  | .flat _ _ => 9
+  | .slice _ _ _ => 55
+  | .filt _ _ _ => 21
   | _ => 100
+
+def PE.isListOrHash : PE N → Bool
+  | .list _ _ => true
+  | .hash _ _ _ _ => true
+  | _ => false
+
+mutual
+/-- The largest power a token following `e` may have without being read as part of `e`. -/
+def PE.rp : PE N → Nat
+  | .idx _ _ _ => 55
+  | .sub _ r => if r.isListOrHash then 40 else min 40 r.rp
+  | .not e => if e.level ≤ 45 then 45 else min 45 e.rp
+  | .bin op _ r => if r.level ≤ op.pow then op.pow else min op.pow r.rp
+  | .dstar _ r => min 40 (r.rp 20)
+  | .bstar _ r => min 55 (r.rp 20)
+  | .flat _ r => min 9 (r.rp 9)
+  | .slice _ _ r => min 55 (r.rp 20)
+  | .filt _ _ r => min 21 (r.rp 21)
+  | .star0 r => min 59 (r.rp 20)
+  | .bstar0 r => min 59 (r.rp 20)
+  | .flat0 r => min 59 (r.rp 9)
+  | .slice0 _ r => min 59 (r.rp 20)
+  | .filt0 _ r => min 59 (r.rp 21)
+  | _ => 59
+def Rhs.rp : Rhs N → Nat → Nat
+  | .none, _ => 9
+  | .dot e, bp => if e.isListOrHash then 59 else min bp e.rp
+  | .br e, bp => min bp e.rp
+end
 
 def tk (ty : TokType) (value : Bytes := []) : Token := ⟨ty, value, 0⟩
 
@@ -67,6 +138,8 @@ def BinOp.node (op : BinOp) (l r : Node N) : Node N :=
   | .or => .or l r
   | .and => .and l r
   | .cmp c => .cmp c l r
+
+def SliceTxt.node (s : SliceTxt) : Node N := .slice (s.a.map (·.2)) (s.b.map (·.2)) (s.c.map (·.2))
 
 mutual
 /-- The AST denoted by an expression. -/
@@ -84,6 +157,21 @@ def node : PE N → Node N
   | .call n args => .call n (nodeArgs args)
   | .list x xs => .msList (node x :: nodeList xs)
   | .hash _ k v kvs => .msHash ((k, node v) :: nodeKVs kvs)
+  | .paren e => node e
+  | .star0 r => .valueProj .identity (nodeRhs r)
+  | .dstar l r => .valueProj (node l) (nodeRhs r)
+  | .bstar0 r => .proj .identity (nodeRhs r)
+  | .bstar l r => .proj (node l) (nodeRhs r)
+  | .flat0 r => .proj (.flatten .identity) (nodeRhs r)
+  | .flat l r => .proj (.flatten (node l)) (nodeRhs r)
+  | .slice0 s r => .proj (.indexExpr .identity s.node) (nodeRhs r)
+  | .slice l s r => .proj (.indexExpr (node l) s.node) (nodeRhs r)
+  | .filt0 c r => .filterProj .identity (nodeRhs r) (node c)
+  | .filt l c r => .filterProj (node l) (nodeRhs r) (node c)
+def nodeRhs : Rhs N → Node N
+  | .none => .identity
+  | .dot e => node e
+  | .br e => node e
 def nodeList : List (PE N) → List (Node N)
   | [] => []
   | x :: xs => node x :: nodeList xs
@@ -95,52 +183,137 @@ def nodeArgs : List (Bool × PE N) → List (Bool × Node N)
   | (b, e) :: rest => (b, node e) :: nodeArgs rest
 end
 
-/-- The head of a dot right-hand side that is an identifier (possibly indexed / called). -/
-def dotHead : PE N → Bool
-  | .ident _ => true
-  | .quoted _ => true
-  | .call _ _ => true
-  | .idx l _ _ => dotHead l
-  | _ => false
-
-def dotOK : PE N → Bool
-  | .list _ _ => true
-  | .hash _ _ _ _ => true
-  | e => dotHead e
-
 def parens (ts : List Token) : List Token := tk .lparen :: ts ++ [tk .rparen]
 
+def numTok (o : Option (Bytes × Int)) : List Token :=
+  match o with
+  | some (t, _) => [tk .number t]
+  | none => []
+
+/-- `a:b` or `a:b:c` (the second colon only when a step is written). -/
+def SliceTxt.toks (s : SliceTxt) : List Token :=
+  numTok s.a ++ tk .colon :: numTok s.b ++ (match s.c with
+    | some (t, _) => [tk .colon, tk .number t]
+    | none => [])
+
 mutual
-/-- The precedence-aware printer (`full`: parenthesise every operand). -/
-def ppE (full : Bool) : PE N → List Token
+/-- The precedence-aware printer. -/
+def ppE : PE N → List Token
   | .ident n => [tk .uident n]
   | .quoted n => [tk .qident n]
   | .raw s => [tk .stringLiteral s]
   | .lit t _ => [tk .jsonLiteral t]
   | .current => [tk .current]
   | .idx0 txt _ => [tk .lbracket, tk .number txt, tk .rbracket]
-  | .idx l txt _ =>
-    (if (full && !dotHead l) || decide (PE.level l < 55) then parens (ppE full l) else ppE full l) ++ [tk .lbracket, tk .number txt, tk .rbracket]
-  | .sub l r =>
-    (if full || decide (PE.level l < 40) then parens (ppE full l) else ppE full l) ++ tk .dot :: ppE full r
-  | .not e =>
-    tk .not :: (if full || decide (PE.level e ≤ 45) then parens (ppE full e) else ppE full e)
+  | .idx l txt _ => (if l.rp < 55 then parens (ppE l) else ppE l) ++ [tk .lbracket, tk .number txt, tk .rbracket]
+  | .sub l r => (if l.rp < 40 then parens (ppE l) else ppE l) ++ tk .dot :: ppE r
+  | .not e => tk .not :: (if e.level ≤ 45 then parens (ppE e) else ppE e)
   | .bin op l r =>
-    (if full || decide (PE.level l < op.pow) then parens (ppE full l) else ppE full l) ++ tk op.tok ::
-      (if full || decide (PE.level r ≤ op.pow) then parens (ppE full r) else ppE full r)
-  | .call n args => tk .uident n :: tk .lparen :: ppArgs full args ++ [tk .rparen]
-  | .list x xs => tk .lbracket :: ppE full x ++ ppTail full xs ++ [tk .rbracket]
-  | .hash q k v kvs => tk .lbrace :: keyTok q k :: tk .colon :: ppE full v ++ ppKVs full kvs ++ [tk .rbrace]
-def ppTail (full : Bool) : List (PE N) → List Token
+    (if l.rp < op.pow then parens (ppE l) else ppE l) ++ tk op.tok ::
+      (if r.level ≤ op.pow then parens (ppE r) else ppE r)
+  | .call n args => tk .uident n :: tk .lparen :: ppArgs args ++ [tk .rparen]
+  | .list x xs => tk .lbracket :: ppE x ++ ppTail xs ++ [tk .rbracket]
+  | .hash q k v kvs => tk .lbrace :: keyTok q k :: tk .colon :: ppE v ++ ppKVs kvs ++ [tk .rbrace]
+  | .paren e => parens (ppE e)
+  | .star0 r => tk .star :: ppRhs r
+  | .dstar l r => (if l.rp < 40 then parens (ppE l) else ppE l) ++ tk .dot :: tk .star :: ppRhs r
+  | .bstar0 r => tk .lbracket :: tk .star :: tk .rbracket :: ppRhs r
+  | .bstar l r => (if l.rp < 55 then parens (ppE l) else ppE l) ++ tk .lbracket :: tk .star :: tk .rbracket :: ppRhs r
+  | .flat0 r => tk .flatten :: ppRhs r
+  | .flat l r => (if l.rp < 9 then parens (ppE l) else ppE l) ++ tk .flatten :: ppRhs r
+  | .slice0 s r => tk .lbracket :: s.toks ++ tk .rbracket :: ppRhs r
+  | .slice l s r => (if l.rp < 55 then parens (ppE l) else ppE l) ++ tk .lbracket :: s.toks ++ tk .rbracket :: ppRhs r
+  | .filt0 c r => tk .filter :: ppE c ++ tk .rbracket :: ppRhs r
+  | .filt l c r => (if l.rp < 21 then parens (ppE l) else ppE l) ++ tk .filter :: ppE c ++ tk .rbracket :: ppRhs r
+def ppRhs : Rhs N → List Token
+  | .none => []
+  | .dot e => tk .dot :: ppE e
+  | .br e => ppE e
+def ppTail : List (PE N) → List Token
   | [] => []
-  | x :: xs => tk .comma :: ppE full x ++ ppTail full xs
-def ppKVs (full : Bool) : List (Bool × Bytes × PE N) → List Token
+  | x :: xs => tk .comma :: ppE x ++ ppTail xs
+def ppKVs : List (Bool × Bytes × PE N) → List Token
   | [] => []
-  | (q, k, v) :: rest => tk .comma :: keyTok q k :: tk .colon :: ppE full v ++ ppKVs full rest
-def ppArgs (full : Bool) : List (Bool × PE N) → List Token
+  | (q, k, v) :: rest => tk .comma :: keyTok q k :: tk .colon :: ppE v ++ ppKVs rest
+def ppArgs : List (Bool × PE N) → List Token
   | [] => []
-  | [(b, e)] => (if b then [tk .expref] else []) ++ ppE full e
-  | (b, e) :: rest => (if b then [tk .expref] else []) ++ ppE full e ++ tk .comma :: ppArgs full rest
+  | [(b, e)] => (if b then [tk .expref] else []) ++ ppE e
+  | (b, e) :: rest => (if b then [tk .expref] else []) ++ ppE e ++ tk .comma :: ppArgs rest
+end
+
+/-- The type of the first token `ppE e` writes. -/
+def first : PE N → TokType
+  | .ident _ => .uident
+  | .quoted _ => .qident
+  | .raw _ => .stringLiteral
+  | .lit _ _ => .jsonLiteral
+  | .current => .current
+  | .idx0 _ _ => .lbracket
+  | .idx l _ _ => if l.rp < 55 then .lparen else first l
+  | .sub l _ => if l.rp < 40 then .lparen else first l
+  | .not _ => .not
+  | .bin op l _ => if l.rp < op.pow then .lparen else first l
+  | .call _ _ => .uident
+  | .list _ _ => .lbracket
+  | .hash _ _ _ _ => .lbrace
+  | .paren _ => .lparen
+  | .star0 _ => .star
+  | .dstar l _ => if l.rp < 40 then .lparen else first l
+  | .bstar0 _ => .lbracket
+  | .bstar l _ => if l.rp < 55 then .lparen else first l
+  | .flat0 _ => .flatten
+  | .flat l _ => if l.rp < 9 then .lparen else first l
+  | .slice0 _ _ => .lbracket
+  | .slice l _ _ => if l.rp < 55 then .lparen else first l
+  | .filt0 _ _ => .filter
+  | .filt l _ _ => if l.rp < 21 then .lparen else first l
+
+/-- What may follow a dot: a multi-select list or hash (and nothing more), or an
+    expression that starts with an identifier (or `*`, on a projection's
+    right-hand side) and binds tighter than level `bp`. -/
+def dotOK (bp : Nat) (allowStar : Bool) (e : PE N) : Bool :=
+  e.isListOrHash ||
+    ((first e == .uident || first e == .qident || (allowStar && first e == .star)) && decide (bp < e.level))
+
+/-- A bracketed right-hand side starts with `[` or `[?` and binds tighter than `bp`. -/
+def brOK (bp : Nat) (e : PE N) : Bool :=
+  (first e == .lbracket || first e == .filter) && decide (bp < e.level)
+
+mutual
+/-- Remove every explicit pair of parentheses (the printer re-inserts the necessary ones). -/
+def erase : PE N → PE N
+  | .idx l t i => .idx (erase l) t i
+  | .sub l r => .sub (erase l) (erase r)
+  | .not e => .not (erase e)
+  | .bin op l r => .bin op (erase l) (erase r)
+  | .call n args => .call n (eraseArgs args)
+  | .list x xs => .list (erase x) (eraseList xs)
+  | .hash q k v kvs => .hash q k (erase v) (eraseKVs kvs)
+  | .paren e => erase e
+  | .star0 r => .star0 (eraseRhs r)
+  | .dstar l r => .dstar (erase l) (eraseRhs r)
+  | .bstar0 r => .bstar0 (eraseRhs r)
+  | .bstar l r => .bstar (erase l) (eraseRhs r)
+  | .flat0 r => .flat0 (eraseRhs r)
+  | .flat l r => .flat (erase l) (eraseRhs r)
+  | .slice0 s r => .slice0 s (eraseRhs r)
+  | .slice l s r => .slice (erase l) s (eraseRhs r)
+  | .filt0 c r => .filt0 (erase c) (eraseRhs r)
+  | .filt l c r => .filt (erase l) (erase c) (eraseRhs r)
+  | e => e
+def eraseRhs : Rhs N → Rhs N
+  | .none => .none
+  | .dot e => .dot (erase e)
+  | .br e => .br (erase e)
+def eraseList : List (PE N) → List (PE N)
+  | [] => []
+  | x :: xs => erase x :: eraseList xs
+def eraseKVs : List (Bool × Bytes × PE N) → List (Bool × Bytes × PE N)
+  | [] => []
+  | (q, k, v) :: rest => (q, k, erase v) :: eraseKVs rest
+def eraseArgs : List (Bool × PE N) → List (Bool × PE N)
+  | [] => []
+  | (b, e) :: rest => (b, erase e) :: eraseArgs rest
 end
 
 end Jmes.Spec
